@@ -39,6 +39,15 @@ def check(pr, name, facts, goal=None, expect_unsat=True):
     detail = ''
     if r == z3.sat:
         detail = str(s.model())[:400]
+        # a violated language obligation is demonstrated natively by the number/text witness program (round trip,
+        # integral printing, literal acceptance)
+        from contracts.value_c import NUMBER_TEXT_WITNESS
+        from pyvc.replay import run_witness
+        res = run_witness(NUMBER_TEXT_WITNESS)
+        pr.add_obligation(name, 'sat', 'z3', secs, detail=detail, function='value.value_string',
+                          inputs={'native_witness': 'number/text round trip'} if res.get('violates') else None,
+                          replay={'reproduced': bool(res.get('violates')), 'observed': res})
+        return
     elif r == z3.unknown:
         from pyvc.solve import run_cvc5
         r5, out = run_cvc5(s.to_smt2(), 20000)
